@@ -1,6 +1,6 @@
 """C06 — no relaying without the configured credential; users stay separated (DESIGN.md 4/C06)."""
 from ..mir import Callee, last_seg, loc, op_int, op_place
-from .common import gates_of_value, returns_variant, success_edge_dominates, err_return_reachable_only, SUCCESS_ARM
+from .common import gates_of_value, returns_variant, success_edge_dominates, err_return_reachable_only, SUCCESS_ARM, err_only, edge_dom, succ_dom
 
 EXPLANATION = (
     "A1 in the initial-state arm of every server codec each construction of a relay item (InboundIn::*), each call that returns one and each "
@@ -29,11 +29,18 @@ def relay_item_sites(b):
     return out
 
 
+def _is_self(b, local):
+    """the local is (a reference to) the codec itself — in a flat body also the `self` of a spliced method"""
+    st = last_seg(getattr(b, "impl_self_def", None) or "")
+    ty = b.local_ty(local).replace("&mut ", "").replace("&", "").strip()
+    return local == 1 or (st and last_seg(ty.split("<")[0]) == st)
+
+
 def state_writes(b, field_names):
     out = []
     for blk in b.rpo():
         for s in b.stmts(blk):
-            if s["k"] in ("assign", "setdiscr") and s["p"][0] == 1:
+            if s["k"] in ("assign", "setdiscr") and _is_self(b, s["p"][0]):
                 fs = [e[2] for e in s["p"][1] if e[0] == "field"]
                 if fs and fs[0] in field_names and len([e for e in s["p"][1] if e[0] in ("field", "downcast")]) == 1:
                     out.append((blk, fs[0], s.get("sp")))
@@ -52,7 +59,7 @@ def initial_arm_region(b, field):
         for d in b.defs().get(p[0], []):
             if d[0] == "assign" and d[3]["rv"]["k"] == "discr":
                 pl = d[3]["rv"]["p"]
-                if pl[0] == 1 and any(e[0] == "field" and e[2] == field for e in pl[1]):
+                if _is_self(b, pl[0]) and any(e[0] == "field" and e[2] == field for e in pl[1]):
                     tgt = None
                     for v, x in t["arms"]:
                         if v == 0:
@@ -68,7 +75,10 @@ def run(ctx):
     bodies = [b for b in prog.prod_bodies() if "::_" not in b.defp]
     decs = [b for b in prog.methods_of_trait_impls("Decoder", "decode") if b.defp.startswith("octo_squirrel_server")]
     ctx.floor("A1", "server codecs (Decoder impls)", 3, len(decs))
-    for b in decs:
+    for b0 in decs:
+        # checks extracted into helper methods of the server codec are judged inside the decode step; calls into the core crate
+        # (the authenticated decode, the auth-id matcher, the header open) stay calls: they are the primitives the rules are about
+        b = prog.flat(b0.defp, stop=lambda cb: not cb.defp.startswith("octo_squirrel_server"), key="same-crate")
         disp = prog.display(b.defp)
         sites = relay_item_sites(b)
         ctx.floor("A1", f"relay item sites in {last_seg(b.impl_self_def or '')}", 2, len(sites))
@@ -91,7 +101,8 @@ def run(ctx):
                         for d in b.defs().get(l, []):
                             if d[0] == "assign" and d[3]["rv"]["k"] == "ref":
                                 pp = d[3]["rv"]["p"]
-                                if pp[0] == 1 and any(e[0] == "field" and e[2] == "key" for e in pp[1]):
+                                # the stored credential: a field of the codec holding SHA-224 output(s) ([u8; 28])
+                                if _is_self(b, pp[0]) and any(e[0] == "field" for e in pp[1]) and "[u8; 28]" in b.local_ty(d[3]["p"][0]):
                                     from_key = True
                     from_src = 2 in locs
                     sides.append((from_key, from_src))
@@ -103,15 +114,15 @@ def run(ctx):
                 eq_truth = c.name == "PartialEq::eq"
                 for g in gates:
                     eq_t, ne_t = g.bool_target(eq_truth), g.bool_target(not eq_truth)
-                    ok = err_return_reachable_only(b, ne_t)
+                    ok = err_only(prog, b, ne_t)
                     ctx.ob("A1", b.defp, "trojan:mismatch-rejects", loc(t["sp"]), ok, "password mismatch only reaches Err" if ok else "password mismatch can reach a non-Err return")
                     for (sb, what, sp, _) in sites:
                         if sb not in region:
                             continue
-                        ok = b.edge_dominates(g.block, eq_t, sb)
+                        ok = edge_dom(prog, b, g.block, eq_t, sb)
                         ctx.ob("A1", b.defp, f"trojan:{what}:behind-password-check", loc(sp), ok, f"{what} is dominated by the password-equal edge" if ok else f"{what} is reachable without passing the password comparison")
                     for (wb, f, sp) in state_writes(b, {"state"}):
-                        ok = b.edge_dominates(g.block, eq_t, wb)
+                        ok = edge_dom(prog, b, g.block, eq_t, wb)
                         ctx.ob("A1", b.defp, "trojan:state-transition-behind-password-check", loc(sp) if sp else loc(b.sp), ok, "state leaves Header only behind the password-equal edge" if ok else "the codec can leave its initial state without the password check")
             # the key field is SHA-224(password): checked in C03-S1
         elif "vmess" in b.defp:
@@ -131,11 +142,11 @@ def run(ctx):
                     locs, _, _ = b.slice_back([p[0]])
                     for l in locs:
                         for d in b.defs().get(l, []):
-                            if d[0] == "assign" and d[3]["rv"]["k"] == "ref" and d[3]["rv"]["p"][0] == 1 and any(e[0] == "field" and e[2] == "keys" for e in d[3]["rv"]["p"][1]):
+                            if d[0] == "assign" and d[3]["rv"]["k"] == "ref" and _is_self(b, d[3]["rv"]["p"][0]) and any(e[0] == "field" and e[2] == "keys" for e in d[3]["rv"]["p"][1]):
                                 ok = True
                 ctx.ob("A1", b.defp, "vmess:matcher-over-registered-keys", loc(mt["sp"]), ok, "matcher runs over self.keys")
                 for (ob, oc, ot) in opens:
-                    ok, why = success_edge_dominates(b, mb, ob)
+                    ok, why = succ_dom(prog, b, mb, ob)
                     ctx.ob("A1", b.defp, "vmess:open-behind-matcher", loc(ot["sp"]), ok, "header open " + why)
                     # key passed to open derives from the matcher's result
                     pk = op_place(ot["args"][0])
@@ -148,15 +159,15 @@ def run(ctx):
                 for (sb, what, sp, _) in sites:
                     if sb not in region:
                         continue
-                    ok, why = success_edge_dominates(b, ob, sb)
+                    ok, why = succ_dom(prog, b, ob, sb)
                     ctx.ob("A1", b.defp, f"vmess:{what}:behind-header-open", loc(sp), ok, f"{what}: " + why)
                 for (wb, f, sp) in state_writes(b, {"decode_state"}):
-                    ok, why = success_edge_dominates(b, ob, wb)
+                    ok, why = succ_dom(prog, b, ob, wb)
                     ctx.ob("A1", b.defp, "vmess:state-transition-behind-header-open", loc(sp) if sp else loc(b.sp), ok, "decode_state leaves Init: " + why)
             # no-match => Err
             for (mb, mc, mt) in match:
                 gs = [g for g in gates_of_value(b, mt["dest"][0]) if g.kind == "option"]
-                ok = bool(gs) and all(err_return_reachable_only(b, g.target_for(0)) for g in gs)
+                ok = bool(gs) and all(err_only(prog, b, g.target_for(0)) for g in gs)
                 ctx.ob("A1", b.defp, "vmess:no-match-rejects", loc(mt["sp"]), ok, "no matching user only reaches Err" if ok else "auth-id without a matching user can reach a non-Err return")
         else:
             # Shadowsocks: relay item operands derive only from the authenticated decode result
